@@ -6,6 +6,7 @@ import (
 	"io/fs"
 	"os"
 	"strings"
+	"time"
 
 	"hpverif/internal/core"
 	"hpverif/internal/fsx"
@@ -151,7 +152,25 @@ type c06faultCase struct {
 	Side      string // write | short-write | read | remove-source | none (no fault: the rename must succeed)
 	At        int
 	Mode      uint32 // mode of the source file (0 = 0640)
+	// Caps: "" both mounts can Rename; "src-no-rename" / "dst-no-rename": that mount's file system has no Rename
+	Caps string `json:",omitempty"`
 }
+
+// c06noRename presents a c06faultFS without its Rename (everything else the mount FS may want is passed on).
+type c06noRename struct{ in *c06faultFS }
+
+func (n c06noRename) Open(name string) (hackpadfs.File, error) { return n.in.Open(name) }
+func (n c06noRename) OpenFile(name string, flag int, perm hackpadfs.FileMode) (hackpadfs.File, error) {
+	return n.in.OpenFile(name, flag, perm)
+}
+func (n c06noRename) Mkdir(name string, perm hackpadfs.FileMode) error { return n.in.Mkdir(name, perm) }
+func (n c06noRename) MkdirAll(name string, perm hackpadfs.FileMode) error {
+	return n.in.MkdirAll(name, perm)
+}
+func (n c06noRename) Remove(name string) error                         { return n.in.Remove(name) }
+func (n c06noRename) Stat(name string) (hackpadfs.FileInfo, error)     { return n.in.Stat(name) }
+func (n c06noRename) Chmod(name string, mode hackpadfs.FileMode) error { return n.in.Chmod(name, mode) }
+func (n c06noRename) Chtimes(name string, a, m time.Time) error        { return n.in.Chtimes(name, a, m) }
 
 func c06faultCases() []c06faultCase {
 	var cs []c06faultCase
@@ -171,6 +190,14 @@ func c06faultCases() []c06faultCase {
 				for _, m := range []fs.FileMode{0o640, fs.ModeSticky | 0o644, fs.ModeSetuid | 0o755, fs.ModeSetgid | fs.ModeSticky | 0o700, 0} {
 					cs = append(cs, c06faultCase{Src: src, Dst: dst, DstExists: ex, Side: "none", Mode: uint32(m) | 1<<31})
 				}
+				// mounts that differ in what they can do: a source without Rename (the destination still stages the copy next to
+				// an existing file, so a failing copy leaves it alone); a destination without Rename (fault-free only: it is
+				// overwritten in place, which cannot be undone)
+				for _, side := range []string{"write", "read"} {
+					cs = append(cs, c06faultCase{Src: src, Dst: dst, DstExists: ex, Side: side, At: 1, Caps: "src-no-rename"})
+				}
+				cs = append(cs, c06faultCase{Src: src, Dst: dst, DstExists: ex, Side: "none", Mode: uint32(0o640) | 1<<31, Caps: "src-no-rename"})
+				cs = append(cs, c06faultCase{Src: src, Dst: dst, DstExists: ex, Side: "none", Mode: uint32(0o640) | 1<<31, Caps: "dst-no-rename"})
 			}
 		}
 	}
@@ -229,8 +256,15 @@ func c06crossfault(env *core.Env, cs c06case, idx int, res *core.CaseResult) {
 	if err == nil {
 		_ = hackpadfs.Mkdir(root, "a", 0o755)
 		_ = hackpadfs.Mkdir(root, "b", 0o755)
-		if err = m.AddMount("a", srcFS); err == nil {
-			err = m.AddMount("b", dstFS)
+		var srcMount, dstMount hackpadfs.FS = srcFS, dstFS
+		switch fc.Caps {
+		case "src-no-rename":
+			srcMount = c06noRename{srcFS}
+		case "dst-no-rename":
+			dstMount = c06noRename{dstFS}
+		}
+		if err = m.AddMount("a", srcMount); err == nil {
+			err = m.AddMount("b", dstMount)
 		}
 	}
 	if err != nil {
@@ -251,6 +285,9 @@ func c06crossfault(env *core.Env, cs c06case, idx int, res *core.CaseResult) {
 	r := fsx.Exec(m, st, &hs, nil)
 	fired := dstFS.writes > dstFS.failWrite && dstFS.failWrite >= 0 || srcFS.reads > srcFS.failRead && srcFS.failRead >= 0 || srcFS.removes > 0 || srcFS.opensRefused > 0 || dstFS.chmods > 0
 	res.Count("crossfault_cases", 1)
+	if fc.Caps != "" {
+		dk += "," + fc.Caps
+	}
 	sig := func(what string) string {
 		return fmt.Sprintf("C06|Rename|cross-mount,copy-fault=%s,%s|%s", fc.Side, dk, what)
 	}
